@@ -94,6 +94,9 @@ type Exec struct {
 	rootFrame  *Frame
 	rootArgs   map[string]Val
 	writeCache map[*ssa.Function]*writeSet
+	recDefs    map[string]*recDef
+	unfolded   map[string]bool
+	pendingFacts []string
 	inlined, opaque, usedContracts, modelsUsed map[string]bool
 }
 
@@ -241,6 +244,7 @@ func (x *Exec) emit(st *State, name, kind, site string, pos token.Pos, goal, des
 	if n := x.obCount[name]; n > 1 {
 		name = fmt.Sprintf("%s~%d", name, n)
 	}
+	x.flushFacts(st)
 	g := x.S.Define("goal", "Bool", goal)
 	body := x.S.Slice(st.pc, g)
 	var sb strings.Builder
